@@ -783,11 +783,11 @@ theorem codegen_load {FT : FieldTab} (hft : FTOk FT) {defs : Defs} (hfields : de
 
 /-! ### the fields of a valid dictionary -/
 
-theorem field_facts {types : TypeTable} {f : FieldXml} (h : wfFieldXml types f = true) :
+theorem field_facts {types : TypeTable} {f : FieldXml} (h : wfFieldXmlE types f = true) :
     ∃ ty t, aget f.type types = some ty ∧ parseIntStr f.number = .ok t ∧
       lfOf (mkDef types f).2 = ⟨f.name, t, ty, specValues ty f.values⟩ ∧
       loadField (clsOf (mkDef types f)) = .ok (lfOf (mkDef types f).2) := by
-  simp only [wfFieldXml, Bool.and_eq_true] at h
+  simp only [wfFieldXmlE, Bool.and_eq_true] at h
   obtain ⟨⟨⟨_, hnum⟩, _⟩, hty⟩ := h
   cases hg : aget f.type types with
   | none => rw [hg] at hty; cases hty
@@ -811,7 +811,7 @@ theorem field_facts {types : TypeTable} {f : FieldXml} (h : wfFieldXml types f =
         simp only [specValues, List.all_map, List.all_eq_true, Function.comp_def]
         intro v hv
         have := hen v hv
-        simp only [wfEnum, Bool.and_eq_true] at this
+        simp only [wfEnumE, Bool.and_eq_true] at this
         obtain ⟨⟨hid, _⟩, hk⟩ := this
         simp only [hid, Bool.true_and]
         cases hq : (ty.kind == PyKind.str || ty.kind == PyKind.bool) with
@@ -829,7 +829,7 @@ theorem field_facts {types : TypeTable} {f : FieldXml} (h : wfFieldXml types f =
       rw [hp, hg, hvals]
       rfl
 
-theorem specFields_eq {types : TypeTable} : ∀ (fxs : List FieldXml), (∀ f ∈ fxs, wfFieldXml types f = true) →
+theorem specFields_eq {types : TypeTable} : ∀ (fxs : List FieldXml), (∀ f ∈ fxs, wfFieldXmlE types f = true) →
     specFields types fxs = .ok (fxs.map (fun f => lfOf (mkDef types f).2))
   | [], _ => rfl
   | f :: rest, h => by
